@@ -85,6 +85,10 @@ pub fn canon_orswot_b(b: &Value) -> Value {
 }
 
 pub fn orswot_reads(s: &S, d: &Dims) -> Value {
+    orswot_reads_opt(s, d, true)
+}
+
+pub fn orswot_reads_opt(s: &S, d: &Dims, full: bool) -> Value {
     let n = d.n;
     let r = s.read();
     let mut val: Vec<u64> = r.val.iter().map(|x| *x as u64).collect();
@@ -100,13 +104,37 @@ pub fn orswot_reads(s: &S, d: &Dims) -> Value {
         .map(|c| json!([*c.val as u64, clock_json(&c.add_clock, n), clock_json(&c.rm_clock, n)]))
         .collect();
     iter.sort_by(cmp_json);
+    // the contexts DERIVED from the reads (ctx.rs): for every actor, from a whole-set read and from a member read
+    let mut derived = vec![];
+    for a in 1..=(if full { n } else { 0 }) {
+        let actor = a as u8;
+        let c1 = s.read_ctx().derive_add_ctx(actor);
+        let c2 = s.contains(&1).derive_add_ctx(actor);
+        let c3 = s.read().derive_add_ctx(actor);
+        derived.push(json!({
+            "read_ctx": [c1.dot.actor, c1.dot.counter, clock_json(&c1.clock, n)],
+            "contains": [c2.dot.actor, c2.dot.counter, clock_json(&c2.clock, n)],
+            "read": [c3.dot.actor, c3.dot.counter, clock_json(&c3.clock, n)],
+        }));
+    }
+    let rmd: Vec<Value> = (1..=d.m).map(|m| clock_json(&s.contains(&(m as u8)).derive_rm_ctx().clock, n)).collect();
     json!({
         "read": {"val": val, "add": clock_json(&r.add_clock, n), "rm": clock_json(&r.rm_clock, n)},
         "read_ctx": {"add": clock_json(&rc.add_clock, n), "rm": clock_json(&rc.rm_clock, n)},
         "contains": contains,
         "iter": iter,
         "clock": clock_json(&s.clock(), n),
+        "derived_add": derived,
+        "derived_rm": rmd,
     })
+}
+
+/// what derive_add_ctx(actor) must give on a read whose add context is `clock`: the actor's next dot and the
+/// clock with that dot applied
+pub fn exp_derived(clock: &Value, a: usize) -> Value {
+    let mut c: Vec<u64> = clock.as_array().unwrap().iter().map(|x| x.as_u64().unwrap()).collect();
+    c[a - 1] += 1;
+    json!([a as u64, c[a - 1], c])
 }
 
 pub fn orswot_exp_reads(a: &Value, d: &Dims) -> Value {
@@ -124,12 +152,17 @@ pub fn orswot_exp_reads(a: &Value, d: &Dims) -> Value {
         }
     }
     iter.sort_by(cmp_json);
+    let n = clock.as_array().unwrap().len();
+    let derived: Vec<Value> = (1..=n).map(|a| { let e = exp_derived(&clock, a); json!({"read_ctx": e, "contains": e, "read": e}) }).collect();
+    let rmd: Vec<Value> = (1..=d.m).map(|m| wit[m - 1].clone()).collect();
     json!({
         "read": {"val": val, "add": clock, "rm": clock},
         "read_ctx": {"add": clock, "rm": clock},
         "contains": contains,
         "iter": iter,
         "clock": clock,
+        "derived_add": derived,
+        "derived_rm": rmd,
     })
 }
 
@@ -206,6 +239,9 @@ impl Engine for OrswotEng {
     fn reads(s: &S, d: &Dims) -> Value {
         orswot_reads(s, d)
     }
+    fn reads_light(s: &S, d: &Dims) -> Value {
+        orswot_reads_opt(s, d, false)
+    }
     fn exp_reads(a: &Value, d: &Dims) -> Value {
         orswot_exp_reads(a, d)
     }
@@ -274,7 +310,7 @@ impl Engine for OrswotEng {
             // iter[i][1] is the member, iter[i][2..] its contexts; a length mismatch is contents
             return path.contains("][2]") || path.contains("][3]");
         }
-        path.contains(".add") || path.contains(".rm") || path.starts_with("clock") || path.starts_with("read_ctx")
+        path.contains(".add") || path.contains(".rm") || path.starts_with("clock") || path.starts_with("read_ctx") || path.starts_with("derived")
     }
 }
 
